@@ -83,6 +83,9 @@ type Fn struct {
 	// Faults: execution number (1-based) -> "err" | "panic". Key 0 means every execution.
 	Faults map[int]string `json:"f,omitempty"`
 	Pool   int            `json:"pool,omitempty"` // 1+index into the declared pool; 0 = dynamic
+	// Reenter > 0: while this function executes it calls Invoke (from the scope it was registered in)
+	// with function Fns[Reenter-1]: re-entrant use of the container from inside user code.
+	Reenter int `json:"reenter,omitempty"`
 }
 
 func (f *Fn) faultAt(exec int) string {
@@ -112,6 +115,9 @@ func (f *Fn) Sig() string {
 	}
 	if len(f.Faults) > 0 {
 		s += fmt.Sprintf(" faults=%v", f.Faults)
+	}
+	if f.Reenter > 0 {
+		s += fmt.Sprintf(" reenters:Invoke(f%d)", f.Reenter-1)
 	}
 	return s
 }
